@@ -91,7 +91,7 @@ def observe_render_derived(fx, np, props, t, codes, kind, how, shape=None):
         return dict(row, k='error', s=bool(s), w=w, f=f, err=type(ex).__name__, msg=str(ex)[:200])
 
 
-def observe_parse(fx, np, props, t, codes, kind, route, raw, shape=None):
+def observe_parse(fx, np, props, t, codes, kind, route, raw, shape=None, npfeed=False):
     """render with the real code, feed the strings back into an object of the same format by `route`"""
     s, w, f = t
     row = {'k': 'parse', 'p': list(props), 's': bool(s), 'w': w, 'f': f, 'kind': kind, 'route': route, 'raw': bool(raw),
@@ -110,7 +110,10 @@ def observe_parse(fx, np, props, t, codes, kind, route, raw, shape=None):
             r = x.hex()
         else:
             raise ValueError(kind)
-        if isinstance(r, str):
+        if npfeed:
+            feed = np.array(r)                   # the rendered strings as a NumPy string array (0-d for a scalar)
+            row['carrier'] += '/np-str'
+        elif isinstance(r, str):
             feed = r
         else:
             feed = np.array(r).tolist()          # nested list of python strings (2-D: element-wise)
